@@ -562,6 +562,14 @@ class C08(Property):
         cs.append({"mode": "real", "n": 1, "m": 2, "items": [one(i) for i in range(4)], "abandon": 2, "wrap": True})
         return cs
 
+    def exhaustive(self, tier):
+        """complete enumeration (bounded only by the budget, which is not reached: tag `dfs:complete`) of ALL schedules of the
+        smallest configurations: every interleaving of loader, one worker lineage incl. its replacement, callbacks and caller"""
+        one = lambda v: {"outs": [v], "err": None, "gen": False}
+        cfgs = [(1, 1, [one(0)]), (1, 2, [one(0)]), (1, 1, [{"outs": [], "err": "ValueError", "gen": False}]),
+                (1, 1, [{"outs": [], "err": None, "gen": True}])]
+        return [{"mode": "dfs", "n": n, "m": m, "items": items, "abandon": None, "budget": 8000, "depth": 400, "skip": 0} for n, m, items in cfgs]
+
     # ---- evaluation
     def evaluate(self, case, driver):
         mode = case.get("mode", "sched")
